@@ -189,7 +189,12 @@ def with_restarts(rng, h, every):
     if every:
         return [h[:k] + ["R"] + h[k:] for k in range(len(h) + 1)]
     k = rng.randint(0, len(h))
-    return [h[:k] + ["R"] + h[k:]]
+    h = h[:k] + ["R"] + h[k:]
+    if rng.random() < 0.3:
+        # a second stop/start: the second session starts from a state file (Main.loaddb) instead of an empty queue
+        k = rng.randint(0, len(h))
+        h = h[:k] + ["R"] + h[k:]
+    return [h]
 
 
 def check(run, prop):
